@@ -73,7 +73,9 @@ def gen_ops(rng, gd, orbit, ecc, inv_ok, ic):
     for _ in range(rng.randint(4, 10)):
         k = rng.random()
         s = list(rng.choice(orbit))
-        if k < 0.2:
+        if k < 0.04:
+            ops.append(["apply_path_central", [rng.randrange(len(gd.gens)) for _ in range(rng.randint(2, 4))]])
+        elif k < 0.2:
             ops.append(["bfs", {"max_diameter": rng.choice([1, 2, ecc, 10**6]), "return_all_hashes": rng.random() < 0.5, "return_all_edges": rng.random() < 0.3, "max_layer_size_to_store": rng.choice([None, 2, 1000]), "disable_batching": rng.random() < 0.3}, None if rng.random() < 0.5 else [s]])
         elif k < 0.3 and inv_ok:
             ops.append(["find_path_to", s, rng.choice([1, 2, ecc])])
@@ -96,8 +98,12 @@ def gen_ops(rng, gd, orbit, ecc, inv_ok, ic):
             ops.append(["modified_copy", list(rng.choice(orbit))])
         elif k < 0.92:
             ops.append(["neighbors", s])
-        else:
+        elif k < 0.95:
             ops.append(["apply_path", s, [rng.randrange(len(gd.gens)) for _ in range(3)]])
+        elif k < 0.98:
+            ops.append(["apply_path_central", [rng.randrange(len(gd.gens)) for _ in range(rng.randint(2, 4))]])
+        else:
+            ops.append(["bfs_from_tensor", [s, list(rng.choice(orbit))], rng.choice([1, 2])])
     return ops
 
 
@@ -132,6 +138,14 @@ def run_op(g, op, rng_seed=0):
         return canon(g.get_neighbors_decoded(torch.tensor([op[1]], dtype=torch.int64)))
     if k == "apply_path":
         return canon(g.apply_path(op[1], op[2]))
+    if k == "apply_path_central":
+        # the caller hands the graph its OWN central-state tensor (a common idiom)
+        return canon(g.apply_path(g.central_state, op[1]))
+    if k == "bfs_from_tensor":
+        t = torch.tensor(op[1], dtype=torch.int64)
+        out = canon(g.bfs(start_states=t, max_diameter=op[2]))
+        assert t.tolist() == op[1], "the caller's tensor was modified"
+        return out
     raise ValueError(k)
 
 
@@ -210,6 +224,14 @@ def run_case(ck: Check, case: dict):
             if key is None or " ".join(map(str, key)) != mk:
                 ck.correspondence_break("find_path cache key differs from the session model's Limits.key", {"op": op, "impl": key, "model": mk})
         a, b = out, out2
+        if op[0] == "walks" and op[1] != "classic" and not seeded and not cur.hasher.is_identity:
+            # thinning picks rows in hash order: with an unseeded hasher the two objects legitimately select different
+            # states; these modes are judged through their guarantees (C07), here only the shapes are compared
+            ck.count("walks on an unseeded graph: guarantees only")
+            if len(a[1]) == 0 or a[1][0] != 0 or b[1][0] != 0:
+                ck.violation("C14/history-dependence/walks-shape", "walk output malformed after the history", rep)
+                return
+            continue
         if not seeded or (cur is not origin and not cur.hasher.is_identity and cur.hasher is not None and not seeded):
             a, b = strip_hashes(a), strip_hashes(b)
         elif cur is not origin:
